@@ -1,6 +1,6 @@
 (** C05 - Application headers and trailers survive transcoding in both directions.
     Statements only; proofs in Proofs/HeaderProofs.v. *)
-From VG Require Import Model.Bytes Model.Headers Model.RespMeta Model.Timeout Model.Request Model.Serve Gen.Generated.
+From VG Require Import Model.Bytes Model.Headers Model.RespMeta Model.Timeout Model.Request Model.Response Model.Serve Gen.Generated.
 From VG Require Import Proofs.HeaderProofs.
 Open Scope Z_scope.
 
@@ -38,6 +38,26 @@ Theorem C05_trailer_position_connect_unary : forall c m h e k vs,
   hvalues (s2b "Trailer-" ++ k) (ho_hdrs (add_response_headers c m h)) = vs.
 Proof. exact connect_unary_trailers_in_head. Qed.
 Print Assumptions C05_trailer_position_connect_unary.
+
+(** A gRPC backend's trailer, set as "Trailer:k" in the handler's header map (and k not one of the
+    three status keys), is trailer [k] of the end that is extracted when the handler returns,
+    with every value ... *)
+Theorem C05_backend_trailers_are_extracted : forall eo known h k,
+  existsb (bytes_eqb k) known = false -> is_prefix trailer_prefix k = false ->
+  forallb (fun s => negb (bytes_eqb s k)) grpc_status_keys = true ->
+  exists e, extract_end_from_trailers eo SGrpc (fst (http_extract_trailers known h)) = Some e /\
+            hvalues k (re_trailers e) = hvalues (trailer_prefix ++ k) h.
+Proof. exact grpc_backend_trailer_extracted. Qed.
+Print Assumptions C05_backend_trailers_are_extracted.
+
+(** ... and the end reaches a streaming client exactly as extracted (C05_trailer_position_streaming
+    says which event that is). *)
+Theorem C05_end_is_delivered_as_is : forall cx e c m, c_end_written c = false -> c_flushed c = true ->
+  c_meta c = Some m -> rm_pending_trailers m = [] ->
+  c_out (report_end cx e c) =
+  c_out c ++ end_events (encode_end (w_client cx) (w_limit cx) (w_end_len cx) e false) ++ [DDone; DFlush].
+Proof. exact reported_end_is_delivered. Qed.
+Print Assumptions C05_end_is_delivered_as_is.
 
 Example C05_ex_app_key : app_key (s2b "X-Custom-Bin") /\ app_key (s2b "Authorization") /\ resp_app_key (s2b "Set-Cookie").
 Proof. repeat split; reflexivity. Qed.
